@@ -51,6 +51,8 @@ def run(ctx):
     r3 = ctx.rule("C13.R3", "BOUNDARY: for every interpolation code, at every breakpoint where the published function is differentiable (left and right pieces have the same first derivative there), the expression the vectorised code SELECTS at the breakpoint itself -- which is what automatic differentiation differentiates -- has that same derivative with respect to alpha (formal differentiation of the interpreted branch; default alpha0)", "BOUNDARY", floor=4)
     _boundary_gradients(ctx, r3, repo)
     table = shim_table(repo)
+    r5 = ctx.rule("C13.R5", "POINT-HISTORY: the function each shim returns, called twice with ONE parameter buffer whose content was changed in place in between (astensor / detach / numpy do not copy a buffer of the backend's own dtype): the second call evaluates objective, value and gradient at the NEW content -- nothing remembered from the first call is returned", "HISTORY", floor=6)
+    _shim_history(ctx, r5)
     r4 = ctx.rule("C13.R4", "POINT: on the jax path the function that is differentiated is evaluated at the vector holding every fixed parameter at its own index with its own value and the free parameters in order in between -- shim and _final_objective composed by interpretation (real _TensorViewer), for fixed parameters listed in ascending and in other orders", "POINT", floor=4)
     from .c05 import jax_objective_point
     jax_objective_point(ctx, r4, repo, table, repo.func(OPT + "common.py", "_make_stitch_pars"), repo.func(OPT + "common.py", "shim"))
@@ -245,3 +247,28 @@ def _boundary_gradients(ctx, rid, repo):
                     ctx.violated(rid, fast.methods["__call__"], f"code {key} gradient at alpha = {t}", f"the interpolation is differentiable at alpha = {t}, but the expression the vectorised code evaluates exactly AT that point has another derivative with respect to alpha (a term that should carry alpha is replaced by a constant there): automatic differentiation returns a wrong gradient component for a parameter sitting on the breakpoint, although every value is right", expected=str(d_lo)[:200], found=str(d_pt)[:200])
             except Undecided as e:
                 ctx.unrecognised(rid, fast.methods["__call__"], f"code {key} at alpha = {t}", f"not interpretable: {e}")
+
+
+def _shim_history(ctx, rid):
+    from ..alg import RaisedInFragment
+    from ..shims import run_shim_history
+    repo = ctx.repo
+    for b, rel in sorted(shim_table(repo).items()):
+        w = repo.func(rel, "wrap_objective")
+        for do_grad in (True, False):
+            site = f"{rel}::wrap_objective.func [do_grad={do_grad}, same buffer, new content]"
+            try:
+                calls = run_shim_history(repo, rel, do_grad)
+            except RaisedInFragment:
+                continue  # this backend refuses the mode (numpy has no gradients)
+            except (Undecided, KeyError, TypeError, ValueError, IndexError, AttributeError) as e:
+                ctx.unrecognised(rid, w, f"wrap_objective [{b}, do_grad={do_grad}]", f"not interpretable: {type(e).__name__}: {e}")
+                continue
+            first, second = calls
+            stale = [x for x in second["returned"] if "q0" in x or "q1" in x]
+            if not first["objective"] or not all("q0" in x for x in first["objective"]):
+                ctx.violated(rid, w, f"first evaluation [{b}, do_grad={do_grad}]", "the wrapped objective is not evaluated at the parameters it is given", expected="objective at (q0, q1)", found=str(first))
+            elif stale or not second["objective"] or not all("r0" in x and "q0" not in x for x in second["objective"]) or not all("r0" in x for x in second["returned"]):
+                ctx.violated(rid, w, f"second evaluation after the buffer changed in place [{b}, do_grad={do_grad}]", "value / gradient returned for the new point are those of an EARLIER point: the function keeps a reference to (not a copy of) the caller's parameter buffer and compares the buffer with itself", expected="objective, value and gradient at (r0, r1)", found=f"objective evaluated at {second['objective']}, returned {second['returned']}")
+            else:
+                ctx.holds(rid, site, f"second call: {second['returned']}")
